@@ -191,7 +191,6 @@ func updateRegex(filePath string, ruleId string, chainOffset uint8, newRegex str
 	foundRule := false
 	chainCount := uint8(0)
 	// A following SecRule only belongs to the chain if the rule before it carries the `chain` action.
-	chainActionRegex := regexp.MustCompile(`\bchain\b`)
 	sawChainAction := false
 	for index, line = range lines {
 		if !foundRule && idRegex.Match(line) {
@@ -200,7 +199,7 @@ func updateRegex(filePath string, ruleId string, chainOffset uint8, newRegex str
 				index--
 				break
 			}
-			sawChainAction = chainActionRegex.Match(line)
+			sawChainAction = regex.HasChainAction(line)
 			continue
 		}
 		if foundRule && regex.SecRuleRegex.Match(line) {
@@ -210,7 +209,7 @@ func updateRegex(filePath string, ruleId string, chainOffset uint8, newRegex str
 			}
 			chainCount++
 			sawChainAction = false
-		} else if foundRule && chainActionRegex.Match(line) {
+		} else if foundRule && regex.HasChainAction(line) {
 			sawChainAction = true
 		}
 		if foundRule && chainCount == chainOffset {
